@@ -319,6 +319,14 @@ func storeMXIDMappings(
 		if err != nil {
 			return err
 		}
+		// The mapping has to be the sender's own: a server vouches for "user_room_key belongs
+		// to user_id", which says nothing about any other key. Without this an event sent
+		// under somebody else's key but carrying the valid mapping of its real author would
+		// store that key as belonging to the author.
+		if mapping.UserRoomKey != ev.SenderID() {
+			logrus.Errorf("mxid_mapping is for %q, not for the sender %q", mapping.UserRoomKey, ev.SenderID())
+			continue
+		}
 		// we already validated it is a valid roomversion, so this should be safe to use.
 		verImpl := MustGetRoomVersion(ev.Version())
 		if err := validateMXIDMappingSignatures(ctx, ev, *mapping, keyRing, verImpl); err != nil {
